@@ -32,6 +32,7 @@ DIMS = OrderedDict([
     ("nm", [1, 2, 4]),                          # formula units per cell (header field of the phonon file)      # row order of the static table (lattice rows move with their volumes)
     ("weights", ["increasing", "equal", "scaled", "int", "zero-first", "zero-last"]),
     ("poly_degree", [2, 1]),
+    ("pve", ["f", "E", "plus"]),        # number format of the P= V= E= header of each volume block (plain, exponent notation, explicit sign)
     ("lheader", [" lattice_a lattice_b lattice_c", "LATTICE_A LATTICE_B LATTICE_C", "a b c", "# lattice parameters (bohr)",
                  "lattice_a lattice_b lattice_c alpha beta gamma"]),    # the last one: three trailing columns (cell angles) after the axis lengths   # one-line header of the lattice block
 ])
@@ -40,6 +41,7 @@ DIMS = OrderedDict([
 def spec_of(case):
     s = {k: case[k] for k in ("nv", "lattice", "system", "compset", "static", "weights", "poly_degree")}
     s["nm"] = case.get("nm", 1)
+    s["pve"] = case.get("pve", "f")
     s["declare"] = case.get("declare", True)
     s["nq"], s["na"] = case["shape"]
     s["qha"] = dict(GRIDS[case["grid"]])
